@@ -16,6 +16,7 @@ import (
 	"io"
 	"os"
 	"os/exec"
+	"runtime"
 	"sort"
 	"strings"
 	"sync"
@@ -151,6 +152,19 @@ var families = map[string]func(w *worker, inner []byte){}
 
 // workerMain: protocol on stdin/stdout: "B <n>\n" + n lines -> one JSON line
 func workerMain(props map[string]bool, opts map[string]string) {
+	// a library call that allocates without end must kill THIS process (a verdict after reproduction), not invite the
+	// kernel's OOM killer to pick some other process of the machine
+	go func() {
+		var ms runtime.MemStats
+		for {
+			time.Sleep(200 * time.Millisecond)
+			runtime.ReadMemStats(&ms)
+			if ms.HeapAlloc > 3<<30 {
+				fmt.Fprintln(os.Stderr, "worker: more than 3 GiB of live heap during a library call (runaway allocation): giving up")
+				os.Exit(3)
+			}
+		}
+	}()
 	in := bufio.NewReaderSize(os.Stdin, 1<<20)
 	out := bufio.NewWriter(os.Stdout)
 	var prev []byte
